@@ -10,6 +10,11 @@ pub mod c06;
 pub mod c07;
 pub mod c08;
 pub mod c10;
+pub mod c11;
+pub mod c15;
+pub mod c16;
+pub mod c17;
+pub mod c18;
 pub mod c14;
 pub mod c20;
 pub mod crash;
@@ -35,6 +40,11 @@ pub fn get(id: &str) -> Option<Check> {
         "C04" => Some(c04::check()),
         "C06" => Some(c06::check()),
         "C10" => Some(c10::check()),
+        "C11" => Some(c11::check()),
+        "C15" => Some(c15::check()),
+        "C16" => Some(c16::check()),
+        "C17" => Some(c17::check()),
+        "C18" => Some(c18::check()),
         "C02" => Some(seqchecks::check("C02")),
         "C05" => Some(seqchecks::check("C05")),
         "C12" => Some(seqchecks::check("C12")),
